@@ -12,6 +12,42 @@ CHECKS = {
         "Trusts the reference interpreter (refmodel/interp.rs) as the reading of the manual; programs it marks undefined are skipped and counted; diverging programs are compared on a prefix.",
         "DESIGN.md §3 C01",
     ),
+    "C04": (
+        "explicit-state breadth-first search over edit histories on the real Runtime (states deduplicated by a full-state digest, plus an undeduplicated cross-check), each RUN / resume transition compared with a fresh interpreter fed get_listing()",
+        "All histories up to depth 4 (quick) / 5 (thorough) over 47 editing, running and resuming actions, from the empty interpreter and from a program stopped inside a subroutine, are executed; on every RUN/RUN n, and on CONT/RETURN/NEXT/FN call right after an edit, the transcript must equal that of a freshly started interpreter holding the current listing; non-editing direct statements must leave the listing unchanged. Exhaustive within the depth bound.",
+        "State identity relies on hook verif_digest covering every future-relevant field; verdicts use only the public API. Histories deeper than the bound are not explored.",
+        "DESIGN.md §3 C04",
+    ),
+    "C12": (
+        "explicit-state breadth-first search over session prefixes (runs to completion / error / STOP / interrupted after k instructions, direct statements) for a family of programs, RUN and CLEAR/NEW+probes compared with a fresh interpreter",
+        "For each of 12 programs every history up to 4 (quick) / 6 (thorough) actions is executed; every RUN must equal RUN in a fresh interpreter with the same listing and CLEAR / NEW followed by 9 probe lines must equal the probes in a fresh interpreter. Exhaustive within the depth bound and the program family.",
+        "Differential oracle (implementation from a history vs implementation from scratch); state identity by verif_digest; RND and TRON excluded as documented.",
+        "DESIGN.md §3 C12",
+    ),
+    "C13": (
+        "exhaustive enumeration of interruption points, STOP/END placements and execute-quantum schedules per program of a bounded family, compared with the quantum-1 baseline; macro-step confluence on the state digest",
+        "For every program of the family (12 curated + the C01 space at small N) an interrupt is injected after every single-instruction call (also at a pending prompt), with and without a direct PRINT, then CONT; STOP and END are inserted before every statement; every uniform quantum, all two-phase schedules and all short mixed schedules are run; output and final variables must equal the uninterrupted quantum-1 run. Exhaustive over the stated schedules for the stated programs.",
+        "Differential oracle against the quantum-1 run of the same implementation; the forced newline of BREAK/errors, READY and a re-issued prompt are normalised; programs using TRON are excluded from the CONT comparisons.",
+        "DESIGN.md §3 C13",
+    ),
+    "C15": (
+        "explicit-state search of the complete store graph (all maps of a small line-number universe x all edit/LIST/DELETE actions) on the real Runtime against a BTreeMap reference",
+        "All 243 (thorough: also 2187) stores over the universe are reached and from each every action (insert, bare number, LIST/DELETE in every operand form over boundary endpoints, numbers above 65529) is executed; listed lines, rejection, resulting store and Listing::line are compared with the reference map. The graph is explored to closure: exhaustive for the universe.",
+        "Line numbers outside the universe behave like those inside it (the endpoints include values between, before and after the stored lines and the 65529/65530 boundary).",
+        "DESIGN.md §3 C15",
+    ),
+    "C16": (
+        "exhaustive enumeration of all single and pairwise spelling deviations of every line of a bounded line space, compared by listing, parsed statements and execution with the canonical spelling",
+        "40 lines covering every statement kind and literal form plus every line of the small program space are re-spelled in all 1- and 2-deviation ways (case per token, blanks per gap, aliases ?, ', GO TO, GO SUB, LET, =<, =>, blanks inside two-character operators, lower-case exponent/radix letters); listing (blank-insensitive outside strings/remarks), parsed AST and run transcript must equal the canonical spelling's. Exhaustive within the bound.",
+        "The lister keeps the user's blanks by design, so listings are compared with blanks outside strings and remarks removed; gluing is only generated where the property allows it.",
+        "DESIGN.md §3 C16",
+    ),
+    "C20": (
+        "exhaustive enumeration of programs x single and pairwise layout transformations, transcripts compared up to reported line numbers",
+        "Every program of the bounded space is re-laid-out (filler REM / ' / empty lines at every gap, empty statements at every boundary, every split of a multi-statement line, direct statement over different stored programs, direct list vs one-line program) and must run to the same transcript after mapping line numbers. Exhaustive within the bound.",
+        "Differential (implementation vs implementation); runs cut by the budget are compared on the common prefix; TRON programs are not split and get no trailing filler line.",
+        "DESIGN.md §3 C20",
+    ),
     "C08": (
         "exhaustive enumeration of operand tuples (all 2^32 pairs per operator in the thorough tier) on the real Operation/Function entry points and through the VM, against an exact-arithmetic reference",
         "Every Integer operator is run on every operand pair of the stated bound (quick: every row/column through 65 boundary values, all 65536 unary operands; thorough: all 2^32 pairs) and compared with exact i64 arithmetic; a wrapped value, a wrong error or a panic on any pair is reported. Exhaustive within the bound, which for the thorough tier is the whole input space of the property.",
